@@ -101,6 +101,13 @@ def run(tier, seed, t0):
                                          'what': 'a BTree%s of %s SocketAddrV6 keys that differ only in scope_id serializes, but decoding the bytes gives %s [%s]'
                                                  % ('Set' if kind == 'set' else 'Map', f.get('n'), f.get('de'), cfg), 'cfg': cfg,
                                          'replay_cmd': "printf 'k\\tsockv6keys\\t-\\t-\\n' | " + exe})
+            r = run_cases(exe, [case_line('k6d', 'sockv6dec', '-', '-')]).get('k6d')
+            stats['evaluations'] += 1
+            want = 'len=18 ip=true port=true flow=0 scope=0'
+            for part in (r or 'no answer').split(';'):
+                if part != want:
+                    disagreements.append({'what': 'a SocketAddrV6 serialized and decoded again gives "%s"; the model (address and port carried in 18 bytes, '
+                                                  'flowinfo and scope_id decoded as 0) says "%s" [%s]' % (part, want, cfg), 'cfg': cfg})
         # recursive derived items (Tree, List, Json, Rec) through their finite unfoldings
         rstats, rdis, rfails = reccorr.rec_stage(cfg, exe, driver, seed, tier)
         disagreements += rdis
